@@ -419,7 +419,11 @@ stmts:
 							if a.Zero != nil {
 								if z, ok := a.Zero(v.Type()); ok {
 									a.vars[v] = z
+									break
 								}
+							}
+							if z, ok := zeroOf(v.Type()); ok {
+								a.vars[v] = z
 							}
 						}
 					}
@@ -621,6 +625,81 @@ func (a *AbsEval) Eval(e ast.Expr) (any, bool) {
 		if tv, ok := a.Info.Types[x.Fun]; ok && tv.IsType() && len(x.Args) == 1 {
 			return a.Eval(x.Args[0])
 		}
+	case *ast.CompositeLit:
+		// a struct value with keyed members: members not given hold their zero value
+		t := a.Info.TypeOf(x)
+		if t == nil {
+			break
+		}
+		st, ok := t.Underlying().(*types.Struct)
+		if !ok {
+			break
+		}
+		out := AbsStruct{}
+		for _, el := range x.Elts {
+			kv, ok := el.(*ast.KeyValueExpr)
+			if !ok {
+				return nil, false
+			}
+			id, ok := kv.Key.(*ast.Ident)
+			if !ok {
+				return nil, false
+			}
+			v, ok := a.Eval(kv.Value)
+			if !ok {
+				return nil, false
+			}
+			out[id.Name] = v
+		}
+		for i := 0; i < st.NumFields(); i++ {
+			f := st.Field(i)
+			if _, has := out[f.Name()]; has {
+				continue
+			}
+			if z, ok := zeroOf(f.Type()); ok {
+				out[f.Name()] = z
+			}
+		}
+		return out, true
+	case *ast.SelectorExpr:
+		// a member of a struct value held by a local
+		if sel := a.Info.Selections[x]; sel != nil && sel.Kind() == types.FieldVal {
+			if bv, ok := a.Eval(x.X); ok {
+				if sv, isS := bv.(AbsStruct); isS {
+					if v, has := sv[x.Sel.Name]; has {
+						return v, true
+					}
+				}
+			}
+		}
+	}
+	return nil, false
+}
+
+// AbsStruct is a struct value: member name → value.
+type AbsStruct map[string]any
+
+func zeroOf(t types.Type) (any, bool) {
+	switch u := t.Underlying().(type) {
+	case *types.Pointer, *types.Slice, *types.Map, *types.Interface:
+		return "nil", true
+	case *types.Basic:
+		switch {
+		case u.Info()&types.IsBoolean != 0:
+			return false, true
+		case u.Info()&types.IsInteger != 0:
+			return int64(0), true
+		case u.Info()&types.IsString != 0:
+			return "", true
+		}
+	case *types.Struct:
+		out := AbsStruct{}
+		for i := 0; i < u.NumFields(); i++ {
+			if z, ok := zeroOf(u.Field(i).Type()); ok {
+				out[u.Field(i).Name()] = z
+			}
+		}
+		return out, true
 	}
 	return nil, false
 }
